@@ -7,14 +7,12 @@ import (
 	"fmt"
 	"io"
 	"math"
-	"reflect"
 	"strings"
 
+	"github.com/Tnze/go-mc/data/packetid"
 	pk "github.com/Tnze/go-mc/net/packet"
 
-	"verif/gen/gotypes"
 	"verif/inject"
-	"verif/ref/refnbt"
 	"verif/ref/refwire"
 	"verif/vm"
 )
@@ -85,6 +83,23 @@ func priorBytes(r *vm.Rand, n int) ([]byte, string) {
 
 var coverPrior func(string)
 
+// coverMisc records an observation class under its own name (set by run).
+var coverMisc = func(string) {}
+
+// writeOnlyField / readOnlyField make a pk.Field out of one half: Opt's func() Field form must call the half that
+// belongs to the direction, the other half panics (and the panic is reported with the case as witness).
+type writeOnlyField struct{ pk.FieldEncoder }
+
+func (writeOnlyField) ReadFrom(io.Reader) (int64, error) {
+	panic("monitor: ReadFrom called on the field of an Opt that is being written")
+}
+
+type readOnlyField struct{ pk.FieldDecoder }
+
+func (readOnlyField) WriteTo(io.Writer) (int64, error) {
+	panic("monitor: WriteTo called on the field of an Opt that is being read")
+}
+
 func genPosition(r *vm.Rand) pk.Position {
 	pick := func(bits uint) int {
 		lo, hi := -(1 << (bits - 1)), (1<<(bits-1))-1
@@ -127,6 +142,20 @@ func genString(r *vm.Rand) string {
 		b[i] = 'a' + byte(r.Intn(26))
 	}
 	return string(b)
+}
+
+// bigSizes are lengths around the places where a reader that grows its buffer as the bytes arrive (64 KiB, then
+// doubling) changes step: just below, exactly on and just above each boundary, up to the largest field a 2 MiB packet
+// can carry.
+var bigSizes = []int{65535, 65536, 65537, 70000, 100000, 131072, 131073, 200000, 262144, 262145, 524289, 1<<21 - 10}
+
+func coverBigSize(kind string, n int) {
+	switch {
+	case n == 131072 || n == 262144:
+		coverPrior(kind + ".size-exactly-on-growth-step")
+	case n > 262144:
+		coverPrior(kind + ".size-above-256KiB")
+	}
 }
 
 // NBT payload used for NBT fields.
@@ -197,16 +226,11 @@ func leaf(r *vm.Rand) node {
 	case 9:
 		s := genString(r)
 		if r.Intn(400) == 0 {
-			s = strings.Repeat("s", []int{65535, 65536, 65537, 70000, 131073, 200000}[r.Intn(6)])
+			s = strings.Repeat("s", bigSizes[r.Intn(len(bigSizes))])
 			coverPrior("String.above-64KiB")
+			coverBigSize("String", len(s))
 		}
-		v := pk.String(s)
-		kind := "String"
-		if r.Bool() {
-			kind = "Identifier"
-		}
-		ref := append(refwire.EncVarInt(int32(len(s))), s...)
-		return simple[pk.String](kind, v, pk.Identifier(v), ref, func(r *vm.Rand) pk.String { return "previous content" })
+		return stringNode(r, s)
 	case 10:
 		v := pk.VarInt(r.Int64B())
 		return simple[pk.VarInt]("VarInt", v, v, refwire.EncVarInt(int32(v)), func(r *vm.Rand) pk.VarInt { return 0x5555 })
@@ -227,26 +251,11 @@ func leaf(r *vm.Rand) node {
 		n := []int{0, 1, 2, 5, 127, 128, 300}[r.Intn(7)]
 		if r.Intn(400) == 0 {
 			// around the sizes at which a reader that grows its buffer step by step changes step
-			n = []int{65535, 65536, 65537, 70000, 100000, 131073, 200000}[r.Intn(7)]
+			n = bigSizes[r.Intn(len(bigSizes))]
 			coverPrior("ByteArray.above-64KiB")
+			coverBigSize("ByteArray", n)
 		}
-		data := r.Bytes(n)
-		v := pk.ByteArray(data)
-		ref := append(refwire.EncVarInt(int32(n)), data...)
-		return node{kind: "ByteArray", enc: v, ref: ref, dst: func(r *vm.Rand) (pk.FieldDecoder, func() string) {
-			prior, st := priorBytes(r, n)
-			coverPrior("ByteArray." + st)
-			if n > 65536 && st == "small-unrelated" {
-				coverPrior("ByteArray.above-64KiB-into-small-destination")
-			}
-			d := pk.ByteArray(prior)
-			return &d, func() string {
-				if !bytes.Equal(d, data) {
-					return fmt.Sprintf("ByteArray (prior %s): got len %d %x want len %d %x", st, len(d), trunc([]byte(d)), n, trunc(data))
-				}
-				return ""
-			}
-		}}
+		return byteArrayNode(r, n)
 	case 16:
 		n := []int{0, 1, 2, 3, 10}[r.Intn(5)]
 		vals := make([]int64, n)
@@ -301,50 +310,25 @@ func leaf(r *vm.Rand) node {
 		}}
 	case 18, 19:
 		// NBT field
-		var p nbtPayload
-		p.A, p.B = int32(r.Int64B()), genString(r)
-		if len(p.B) > 200 {
-			p.B = p.B[:200]
+		if r.Intn(5) == 0 {
+			return chatNode(r)
 		}
-		for i := r.Intn(4); i > 0; i-- {
-			p.C = append(p.C, r.Int64B())
-		}
-		p.D.E, p.D.F = int8(r.Int64B()), float32(r.Intn(1000))/8
-		tree, _ := gotypes.Expect(reflect.ValueOf(p))
-		ref := refnbt.Encode(tree, "", true)
-		allow := r.Bool()
-		var enc pk.FieldEncoder = pk.NBT(p)
-		if allow {
-			enc = pk.NBTField{V: &p, AllowUnknownFields: true}
-		}
-		return node{kind: "NBT", enc: enc, ref: ref, dst: func(r *vm.Rand) (pk.FieldDecoder, func() string) {
-			d := nbtPayload{A: 99, B: "old", C: []int64{9, 9, 9, 9, 9, 9}}
-			var f pk.FieldDecoder = pk.NBT(&d)
-			if allow {
-				f = pk.NBTField{V: &d, AllowUnknownFields: true}
-			}
-			return f, func() string {
-				if diff := gotypes.EqualGo(reflect.ValueOf(d), reflect.ValueOf(p)); diff != "" {
-					return "NBT field: " + diff
-				}
-				return ""
-			}
-		}}
+		return nbtNode(r)
 	case 20:
 		// nil NBT -> single TAG_End
-		return node{kind: "NBT.nil", enc: pk.NBT(nil), ref: []byte{0}, dst: func(r *vm.Rand) (pk.FieldDecoder, func() string) {
-			var d nbtPayload
-			return pk.NBT(&d), func() string {
-				if d.A != 0 || d.B != "" {
-					return "NBT(nil) decode modified the destination"
-				}
-				return ""
-			}
-		}}
+		return nbtNilNode(r)
 	default:
 		data := r.Bytes(r.Range(0, 30))
+		if r.Intn(8) == 0 {
+			// around the first buffer of a reader that reads "until the end" (512 bytes) and well beyond it
+			data = r.Bytes([]int{0, 511, 512, 513, 4096, 70000}[r.Intn(6)])
+			if len(data) >= 512 {
+				coverPrior("PluginMessageData.512-bytes-or-more")
+			}
+		}
 		return node{kind: "PluginMessageData", tail: true, enc: pk.PluginMessageData(data), ref: data, dst: func(r *vm.Rand) (pk.FieldDecoder, func() string) {
 			prior, st := priorBytes(r, len(data))
+			coverPrior("PluginMessageData." + st)
 			d := pk.PluginMessageData(prior)
 			return &d, func() string {
 				if !bytes.Equal(d, data) {
@@ -354,6 +338,36 @@ func leaf(r *vm.Rand) node {
 			}
 		}}
 	}
+}
+
+func stringNode(r *vm.Rand, s string) node {
+	v := pk.String(s)
+	kind := "String"
+	if r.Bool() {
+		kind = "Identifier"
+	}
+	ref := append(refwire.EncVarInt(int32(len(s))), s...)
+	return simple[pk.String](kind, v, pk.Identifier(v), ref, func(r *vm.Rand) pk.String { return "previous content" })
+}
+
+func byteArrayNode(r *vm.Rand, n int) node {
+	data := r.Bytes(n)
+	v := pk.ByteArray(data)
+	ref := append(refwire.EncVarInt(int32(n)), data...)
+	return node{kind: "ByteArray", enc: v, ref: ref, dst: func(r *vm.Rand) (pk.FieldDecoder, func() string) {
+		prior, st := priorBytes(r, n)
+		coverPrior("ByteArray." + st)
+		if n > 65536 && st == "small-unrelated" {
+			coverPrior("ByteArray.above-64KiB-into-small-destination")
+		}
+		d := pk.ByteArray(prior)
+		return &d, func() string {
+			if !bytes.Equal(d, data) {
+				return fmt.Sprintf("ByteArray (prior %s): got len %d %x want len %d %x", st, len(d), trunc([]byte(d)), n, trunc(data))
+			}
+			return ""
+		}
+	}}
 }
 
 func trunc(b []byte) []byte {
@@ -425,10 +439,16 @@ func mkAry[LEN lenType, T any, PT interface {
 		case 5:
 			prior, st = make([]T, r.Intn(n+1), n+1+r.Intn(4)), "spare-capacity"
 		}
-		for i := range prior {
-			prior[i] = junk() // a fresh value per element: slices must not share backing arrays
+		// also the elements between len and cap hold something: Ary.ReadFrom re-uses "the element (and its buffers)
+		// already there" when it grows into spare capacity
+		full := prior[:cap(prior)]
+		for i := range full {
+			full[i] = junk() // a fresh value per element: slices must not share backing arrays
 		}
 		coverPrior("Ary." + st)
+		if cap(prior) > len(prior) && n > len(prior) {
+			coverPrior("Ary.stale-elements-in-spare-capacity")
+		}
 		d := prior
 		return pk.Ary[LEN]{Ary: &d}, func() string {
 			if len(d) != n {
@@ -453,7 +473,13 @@ func aryOf[T any, PT interface {
 		n = r.Range(0, 6)
 	}
 	which := r.Intn(8)
-	if r.Intn(400) == 0 && which != 2 && which != 3 {
+	if compositeElems[elemKind] {
+		// elements that are fields of several parts each: few of them (the counts near the prefix types' limits are
+		// covered with the leaf element types)
+		if n > 20 {
+			n = r.Range(7, 20)
+		}
+	} else if r.Intn(400) == 0 && which != 2 && which != 3 {
 		// counts around the sign bit and the maximum of the 16-bit prefixes
 		n = []int{32767, 32768, 40000, 65535}[r.Intn(4)]
 		if which == 4 {
@@ -486,8 +512,14 @@ func aryOf[T any, PT interface {
 	}
 }
 
+var compositeElems = map[string]bool{"Record": true, "Option[String]": true}
+
 func aryNode(r *vm.Rand) (node, bool) {
-	switch r.Intn(6) {
+	switch r.Intn(8) {
+	case 6:
+		return aryOf[optStr](r, "Option[String]", func() (optStr, []byte) { return genOptStr(r) }, eqOptStr, func() optStr { return optStr{Has: pk.Boolean(r.Bool()), Val: "junk"} })
+	case 7:
+		return aryOf[record](r, "Record", func() (record, []byte) { return genRecord(r) }, eqRecord, func() record { return junkRecord(r) })
 	case 0:
 		return aryOf[pk.VarInt](r, "VarInt", func() (pk.VarInt, []byte) { v := pk.VarInt(r.Int64B()); return v, refwire.EncVarInt(int32(v)) }, func(a, b pk.VarInt) bool { return a == b }, func() pk.VarInt { return 0x99 })
 	case 1:
@@ -506,9 +538,18 @@ func aryNode(r *vm.Rand) (node, bool) {
 		return aryOf[pk.Position](r, "Position", func() (pk.Position, []byte) { p := genPosition(r); return p, refPosition(p) }, func(a, b pk.Position) bool { return a == b }, func() pk.Position { return pk.Position{X: 9} })
 	default:
 		return aryOf[pk.ByteArray](r, "ByteArray", func() (pk.ByteArray, []byte) {
-			d := r.Bytes(r.Range(0, 6))
+			d := r.Bytes(r.Range(0, 10))
 			return pk.ByteArray(d), append(refwire.EncVarInt(int32(len(d))), d...)
-		}, func(a, b pk.ByteArray) bool { return bytes.Equal(a, b) }, func() pk.ByteArray { return pk.ByteArray{9, 9, 9, 9, 9, 9, 9, 9, 9} })
+		}, func(a, b pk.ByteArray) bool { return bytes.Equal(a, b) }, func() pk.ByteArray {
+			// a buffer from an earlier use: shorter or longer than what arrives, with or without room to spare
+			v := r.Uint64()
+			b := make([]byte, int(v%13), 12)
+			if v&(1<<20) != 0 {
+				b = b[:len(b):len(b)]
+			}
+			copy(b, "\t\t\t\t\t\t\t\t\t\t\t\t")
+			return b
+		})
 	}
 }
 
@@ -597,25 +638,33 @@ func optNode(r *vm.Rand, depth int) node {
 	}
 	hb := pk.Boolean(has)
 	var encOpt pk.Opt
-	switch r.Intn(3) {
+	encForm := r.Intn(4)
+	switch encForm {
 	case 0:
 		encOpt = pk.Opt{Has: &hb, Field: inner.enc}
 	case 1:
 		encOpt = pk.Opt{Has: func() bool { return has }, Field: func() pk.FieldEncoder { return inner.enc }}
+	case 3:
+		// the fourth documented form: a func() Field. The Field it returns can only write: a ReadFrom call on it panics
+		encOpt = pk.Opt{Has: &hb, Field: func() pk.Field { coverMisc("opt.write.func-field"); return writeOnlyField{inner.enc} }}
 	default:
 		b := has
 		encOpt = pk.Opt{Has: &b, Field: inner.enc}
 	}
-	form := r.Intn(3)
+	form := r.Intn(4)
 	return node{kind: "Opt(" + inner.kind + ")", enc: pk.Tuple{hb, encOpt}, ref: ref, dst: func(r *vm.Rand) (pk.FieldDecoder, func() string) {
 		var got pk.Boolean = pk.Boolean(!has)
 		id, ichk := inner.dst(r)
 		var o pk.Opt
+		decCalls := 0
 		switch form {
 		case 0:
 			o = pk.Opt{Has: &got, Field: id}
 		case 1:
 			o = pk.Opt{Has: func() bool { return bool(got) }, Field: func() pk.FieldDecoder { return id }}
+		case 3:
+			// func() Field whose Field can only read
+			o = pk.Opt{Has: &got, Field: func() pk.Field { decCalls++; return readOnlyField{id} }}
 		default:
 			o = pk.Opt{Has: &got, Field: id}
 		}
@@ -624,7 +673,12 @@ func optNode(r *vm.Rand, depth int) node {
 				return "Opt: Has flag mismatch"
 			}
 			if has {
-				return ichk()
+				if s := ichk(); s != "" {
+					return s
+				}
+				if form == 3 && decCalls > 0 {
+					coverMisc("opt.read.func-field")
+				}
 			}
 			return ""
 		}
@@ -675,7 +729,11 @@ func gen(r *vm.Rand, depth int, allowTail bool) node {
 		case depth < 3 && k == 1:
 			n = optNode(r, depth)
 		case k == 2:
-			n = optionNode(r)
+			if r.Intn(3) == 0 {
+				n = compositeOptionNode(r)
+			} else {
+				n = optionNode(r)
+			}
 		case k == 3 || k == 4:
 			var ok bool
 			n, ok = aryNode(r)
@@ -801,30 +859,89 @@ func checkCountsOnFailure(c *vm.Ctx, r *vm.Rand, n node) {
 			return map[string]any{"kind": n.kind, "reference_bytes": vm.Hex(n.ref), "direction": dir, "cut_after_bytes": k}
 		}
 	}
+	// cut offsets: every one of the first 48 bytes, the last byte, and for fields above 64 KiB the places where a
+	// reader that grows its buffer step by step starts a new step (each step boundary, shifted by the length prefix)
 	lim := min(len(n.ref), 48)
+	cuts := make([]int, 0, lim+24)
 	for k := 0; k < lim; k++ {
-		fw := &inject.FaultWriter{K: k}
-		var wn int64
+		cuts = append(cuts, k)
+	}
+	if len(n.ref)-1 >= lim {
+		cuts = append(cuts, len(n.ref)-1)
+	}
+	bigCuts := false
+	for step := 65536; step < len(n.ref)-1; step *= 2 {
+		// (a String or ByteArray of that size has a 3-byte length prefix: step+3 ends exactly on the boundary)
+		for _, k := range []int{step + 3, step + 100} {
+			if k < len(n.ref)-1 {
+				cuts = append(cuts, k)
+				bigCuts = true
+			}
+		}
+	}
+	for ci, k := range cuts {
 		var err error
-		if c.Guard("count/write/"+kc, wit(k, "write"), func() { wn, err = n.enc.WriteTo(fw) }) {
-			return
+		if k < lim || k == len(n.ref)-1 { // writers have no growth steps
+			fw := &inject.FaultWriter{K: k}
+			var wn int64
+			if c.Guard("count/write/"+kc, wit(k, "write"), func() { wn, err = n.enc.WriteTo(fw) }) {
+				return
+			}
+			c.Eval(0, false)
+			if err != nil && wn != int64(len(fw.Got)) {
+				c.Violation("count/write/"+kc, fmt.Sprintf("WriteTo into a writer that accepts %d bytes returned n=%d with an error; %d bytes were produced", k, wn, len(fw.Got)), wit(k, "write")())
+				return
+			}
 		}
-		c.Eval(0, false)
-		if err != nil && wn != int64(len(fw.Got)) {
-			c.Violation("count/write/"+kc, fmt.Sprintf("WriteTo into a writer that accepts %d bytes returned n=%d with an error; %d bytes were produced", k, wn, len(fw.Got)), wit(k, "write")())
-			return
+		// the truncated input arrives through a source with ReadByte; at every fourth cut also through one of the two
+		// plain readers (through all three for the cuts beyond the first 48 bytes)
+		for src := 0; src < 3; src++ {
+			if alt := (ci + len(n.ref)) % 8; src > 0 && k < lim && !(src == 1 && alt == 1 || src == 2 && alt == 5) {
+				continue
+			}
+			d, _ := n.dst(r)
+			var rd io.Reader
+			var pos func() int
+			sname := "bytereader"
+			switch src {
+			case 0:
+				bs := &inject.ByteSrc{B: n.ref[:k]}
+				rd, pos = bs, func() int { return bs.Pos }
+			case 1:
+				pr := &inject.PlainReader{R: bytes.NewReader(n.ref[:k])}
+				rd, pos, sname = pr, func() int { return int(pr.N) }, "plainreader"
+			default:
+				qr := &inject.QuirkReader{B: n.ref[:k], Stutter: true}
+				rd, pos, sname = qr, func() int { return qr.Pos }, "plainreader.zero-progress-reads"
+			}
+			w := func() any {
+				m := wit(k, "read")().(map[string]any)
+				m["source"] = sname
+				return m
+			}
+			var rn int64
+			if c.Guard("count/read/"+kc, w, func() { rn, err = d.ReadFrom(rd) }) {
+				return
+			}
+			c.Eval(0, false)
+			if err != nil && rn != int64(pos()) {
+				sig := "count/read/" + kc
+				if src > 0 {
+					sig += "/" + sname
+				}
+				c.Violation(sig, fmt.Sprintf("ReadFrom of the first %d bytes (%s) returned n=%d with an error; %d bytes were consumed", k, sname, rn, pos()), w())
+				return
+			}
+			if err != nil && k >= lim {
+				c.Cover("count-on-failure.cut-beyond-48." + sname)
+			}
+			if err != nil && src > 0 {
+				c.Cover("count-on-failure.src." + sname)
+			}
 		}
-		d, _ := n.dst(r)
-		bs := &inject.ByteSrc{B: n.ref[:k]}
-		var rn int64
-		if c.Guard("count/read/"+kc, wit(k, "read"), func() { rn, err = d.ReadFrom(bs) }) {
-			return
-		}
-		c.Eval(0, false)
-		if err != nil && rn != int64(bs.Pos) {
-			c.Violation("count/read/"+kc, fmt.Sprintf("ReadFrom of the first %d bytes returned n=%d with an error; %d bytes were consumed", k, rn, bs.Pos), wit(k, "read")())
-			return
-		}
+	}
+	if bigCuts {
+		c.Cover("count-on-failure.cut-at-growth-step")
 	}
 	c.Cover("count-on-failure." + kc)
 }
@@ -849,7 +966,20 @@ func checkPacket(c *vm.Ctx, r *vm.Rand) {
 		return map[string]any{"fields": ks, "reference_data": vm.Hex(want)}
 	}
 	var p pk.Packet
-	if c.Guard("packet/marshal", wit, func() { p = pk.Marshal(id, encs...) }) {
+	idForm := r.Intn(4)
+	if c.Guard("packet/marshal", wit, func() {
+		// Marshal[ID ~int32 | int]: every way an id can be typed
+		switch idForm {
+		case 0:
+			p = pk.Marshal(id, encs...)
+		case 1:
+			p = pk.Marshal(int(id), encs...)
+		case 2:
+			p = pk.Marshal(packetid.ClientboundPacketID(id), encs...)
+		default:
+			p = pk.Marshal(packetid.ServerboundPacketID(id), encs...)
+		}
+	}) {
 		return
 	}
 	c.Eval(vm.Hash64(want, []byte("packet")), n >= 2)
@@ -890,6 +1020,7 @@ func checkPacket(c *vm.Ctx, r *vm.Rand) {
 		}
 	}
 	c.Cover("packet.compose")
+	c.Cover("packet.marshal.id-typed-" + []string{"int32", "int", "packetid.Clientbound", "packetid.Serverbound"}[idForm])
 }
 
 // checkBitSets: what the two bit-set types mean on the wire. A fixed bit set of n bits is ceil(n/8) bytes with bit i
@@ -974,6 +1105,7 @@ func checkBitSets(c *vm.Ctx, r *vm.Rand) {
 
 func run(c *vm.Ctx) {
 	coverPrior = func(s string) { c.Cover("prior." + s) }
+	coverMisc = func(s string) { c.Cover(s) }
 	// reference self-test
 	if !bytes.Equal(refPosition(pk.Position{X: 18357644, Y: 831, Z: -20882616}), []byte{0x46, 0x07, 0x63, 0x2c, 0x15, 0xb4, 0x83, 0x3f}) {
 		panic("reference position packing self-test failed (wiki.vg vector)")
@@ -998,10 +1130,28 @@ func run(c *vm.Ctx) {
 			c.Sample("field", map[string]any{"field": nd.kind, "wire": vm.Hex(nd.ref)})
 		}
 	}
+	if c.Shard == 2%c.NShards {
+		// every size of the growth schedule once, whatever the seed drew above
+		fr := c.Rand("forced-big-sizes")
+		for _, sz := range bigSizes {
+			coverBigSize("String", sz)
+			coverBigSize("ByteArray", sz)
+			for _, nd := range []node{stringNode(fr, strings.Repeat("s", sz)), byteArrayNode(fr, sz)} {
+				checkNode(c, fr, nd)
+				checkCountsOnFailure(c, fr, nd)
+			}
+		}
+		c.Cover("forced.big-sizes")
+	}
 	pr := c.Rand("packets")
 	for i := 0; i < c.Scale(30000, 600000); i++ {
 		checkPacket(c, pr)
 	}
+	ur := c.Rand("nbt-unknown-members")
+	for i := 0; i < c.Scale(4000, 80000); i++ {
+		checkUnknownMembers(c, ur)
+	}
+	checkDynbtEnd(c) // once a finding (TAG_End written as two bytes; fixed, see known_findings.json)
 	br := c.Rand("bitsets")
 	for i := 0; i < c.Scale(3000, 60000); i++ {
 		checkBitSets(c, br)
